@@ -3,3 +3,4 @@
 // vacuity canary (MUST fail)
 proof fn canary_alloc_layout(tl: TableLayout, b: usize) requires layout_ok(tl), tl.size == 3, spec_is_pow2(b), b >= 16, ensures false {}
 proof fn canary_alloc_fresh(t: &RawTableInner) requires t.fresh(), t.bucket_mask >= 31, ensures false {}
+proof fn canary_alloc_allocated(t: &RawTableInner, tl: TableLayout) requires t.allocated_with(tl), t.bucket_mask >= 15, ensures false {}
